@@ -105,7 +105,9 @@ class Fs:
     def desc_block_loc(self, i):
         """block holding descriptor block i of the primary table"""
         if not (self.incompat & INCOMPAT_META_BG) or i < self.first_meta_bg:
-            return self.first_data_block + 1 + i
+            # 1k blocks with s_first_data_block 0 (bigalloc): the superblock is block 1, the table starts behind it
+            adj = 1 if (self.first_data_block == 0 and self.bs == 1024) else 0
+            return self.first_data_block + 1 + adj + i
         g = i * self.desc_per_block
         return self.group_first_block(g) + (1 if self.bg_has_super(g) else 0)
 
